@@ -13,11 +13,11 @@ def configs(ctx, b, selfops=False):
     so = {"selfops": True} if selfops else {}
     q = ctx.tier == "quick"
     l, a, p = b["seq_list"](ctx), b["seq_array"](ctx), b["seq_pl"](ctx)
-    cs = [(l, "List V=3 maxlen=%d" % (3 if q else 4), dict(values=3, maxlen=3 if q else 4, _big=not q, **so)),
-          (l, "List V=2 maxlen=%d" % (4 if q else 5), dict(values=2, maxlen=4 if q else 5, **so)),
-          (a, "Array maxlen=%d" % (12 if q else 16), dict(maxlen=12 if q else 16, **so)),
-          (a, "Array maxlen=%d initcap=5" % (9 if q else 13), dict(maxlen=9 if q else 13, initcap=5, **so)),
-          (p, "PoolList maxlen=%d" % (5 if q else 9), dict(maxlen=5 if q else 9, **so))]
+    cs = [(l, "List V=3 maxlen=%d" % (3 if q else 5), dict(values=3, maxlen=3 if q else 5, _big=not q, **so)),
+          (l, "List V=2 maxlen=%d" % (4 if q else 7), dict(values=2, maxlen=4 if q else 7, _big=not q, **so)),
+          (a, "Array maxlen=%d" % (12 if q else 28), dict(maxlen=12 if q else 28, **so)),
+          (a, "Array maxlen=%d initcap=5" % (9 if q else 21), dict(maxlen=9 if q else 21, initcap=5, **so)),
+          (p, "PoolList maxlen=%d" % (5 if q else 13), dict(maxlen=5 if q else 13, **so))]
     return cs
 
 def sort_args(ctx):
